@@ -44,6 +44,7 @@ var srcDir = func() string {
 
 type propSpec struct {
 	Engine     string   // world | sched
+	Owns       []string // assertion-id prefixes of other properties that this property's statement also makes
 	Also       string   // a second engine that contributes runs to the same property ("" = none)
 	AlsoRuns   int      // quick-tier runs of the second engine
 	Cover      []string // oracle-cell prefixes that count as this property's non-trivial cases
@@ -177,7 +178,7 @@ func (a *agg) addFrom(property string, r *lineResult, engine string) {
 		a.harnessErr = append(a.harnessErr, fmt.Sprintf("run %d seed %x: %s", r.Index, r.Seed, r.HarnessErr))
 	}
 	for _, v := range r.Violations {
-		if v.Property() != property && os.Getenv("VERIF_ALL_ASSERTIONS") == "" {
+		if v.Property() != property && !ownedBy(property, v.Assertion) && os.Getenv("VERIF_ALL_ASSERTIONS") == "" {
 			a.otherProps[v.Assertion]++
 			continue
 		}
@@ -381,6 +382,17 @@ func (k knownFinding) matches(property, assertion string, sig map[string]string)
 		}
 	}
 	return true
+}
+
+// ownedBy: a property's check also counts the assertions listed in its Owns (clauses that the
+// statement shares with another property and that are implemented once, under the other's id).
+func ownedBy(property, assertion string) bool {
+	for _, pre := range props[property].Owns {
+		if strings.HasPrefix(assertion, pre) {
+			return true
+		}
+	}
+	return false
 }
 
 // engineRuns counts the runs each engine contributed to the current check.
